@@ -482,12 +482,27 @@ func (s *segment) close() error {
 
 // Cleaned creates a cleaned segment for this segment.
 func (s *segment) Cleaned() (*segment, error) {
-	return newSegment(s.path, s.BaseOffset, s.maxBytes, false, cleanedSuffix)
+	return s.scratch(cleanedSuffix)
 }
 
 // Truncated creates a truncated segment for this segment.
 func (s *segment) Truncated() (*segment, error) {
-	return newSegment(s.path, s.BaseOffset, s.maxBytes, false, truncatedSuffix)
+	return s.scratch(truncatedSuffix)
+}
+
+// scratch creates an empty segment with the given file suffix which is later
+// swapped in for this segment. Files with that suffix may be left over from a
+// run that was interrupted before the swap; they must not be appended to.
+func (s *segment) scratch(suffix string) (*segment, error) {
+	for _, file := range []string{
+		filepath.Join(s.path, fmt.Sprintf(fileFormat, s.BaseOffset, logSuffix+suffix)),
+		filepath.Join(s.path, fmt.Sprintf(fileFormat, s.BaseOffset, indexSuffix+suffix)),
+	} {
+		if err := os.Remove(file); err != nil && !os.IsNotExist(err) {
+			return nil, errors.Wrap(err, "failed to remove stale segment file")
+		}
+	}
+	return newSegment(s.path, s.BaseOffset, s.maxBytes, false, suffix)
 }
 
 // Replace replaces the given segment with the callee.
